@@ -661,10 +661,10 @@ def C15_entryOK (windowed : Bool) (e e' : BidEntry) : Bool :=
 
 def C15_bidsOK (s s' : State) : Bool :=
   s'.bids.keys == s.bids.keys &&
-  s.bids.all fun kv =>
-    match s'.bids.get? kv.1 with
-    | some e' => C15_entryOK (inWindow s) kv.2 e'
-    | none => false
+  s.bids.keys.all fun k =>
+    match s.bids.get? k, s'.bids.get? k with
+    | some e, some e' => C15_entryOK (inWindow s) e e'
+    | _, _ => false
 
 /-! ## C16 queries -/
 
